@@ -13,12 +13,17 @@ props = [json.loads(l) for l in open(f'{R}/properties.jsonl')]
 ids = [p['id'] for p in props]
 engines = {
  'vc_query': ['C01','C02','C03','C04','C05','C35'],
- 'vc_store': ['C06','C07','C08','C09','C10','C11','C30'],
+ 'vc_store': ['C06','C10','C30'],
+ 'vc_mvcc': ['C07','C08','C09'],
+ 'vc_index': ['C11','C29'],
  'vc_snap': ['C12','C13','C14'],
- 'vc_persist': ['C15','C16','C17','C18','C19','C32'],
- 'vc_proto': ['C20','C21','C22','C23','C24'],
+ 'vc_wal': ['C15','C17'],
+ 'vc_persist': ['C16','C18','C32'],
+ 'vc_server': ['C19','C23'],
+ 'vc_proto': ['C20','C21','C22','C24'],
  'vc_parse': ['C25'],
- 'vc_algo': ['C26','C27','C28','C29'],
+ 'vc_algo': ['C26','C27'],
+ 'vc_hier': ['C28'],
  'vc_raft': ['C31','C33'],
  'vc_opt': ['C34'],
  'vc_rdf': ['C36'],
